@@ -472,6 +472,8 @@ class Interp:
                 self.events.append(("store-global", fn, node, (c, val), s, tuple(f.name for f in self.stack), tuple(self.callsites)))
             elif b[0] == "d":
                 self.events.append(("store-input", fn, node, (c, val), s, tuple(f.name for f in self.stack), tuple(self.callsites)))
+            elif b[0] == "heap":
+                self.events.append(("store-heap", fn, node, (c, val), s, tuple(f.name for f in self.stack), tuple(self.callsites)))
         for h in self.hooks_store:
             for c in cells:
                 r = h(self, fn, node, c, val, s)
@@ -1409,7 +1411,7 @@ class Interp:
                     s = self.refine_node(a, ra, s, fn)
                 if exact_set(va):
                     s = self.refine_node(b, rb, s, fn)
-                if ca is not None and cb is not None and o in ("<", "<=", ">", ">=") and not exact_set(va) and not exact_set(vb):
+                if ca is not None and cb is not None and o in ("<", "<=", ">", ">="):
                     fact = {"<": ("<", ca, cb), "<=": ("<=", ca, cb), ">": ("<", cb, ca), ">=": ("<=", cb, ca)}[o]
                     s = s.copy()
                     s.mon["rel"] = frozenset(s.mon.get("rel", frozenset()) | {fact})
